@@ -103,8 +103,12 @@ def grid_cases(tier):
                                     yield dict(base, form=form, outer=outer, **{'else': els})
                     else:
                         k = h(kind, cont, U.opts_code(opts), xs)
-                        yield dict(base, form=FORMS[k % 3], outer=bool((k >> 4) & 1),
-                                   **{'else': bool((k >> 7) & 1)})
+                        case = dict(base, form=FORMS[k % 3], outer=bool((k >> 4) & 1),
+                                    **{'else': bool((k >> 7) & 1)})
+                        yield case
+                        # extra: the computed spellings sort_expr / reverse_expr of the same options
+                        if (k >> 9) % 4 == 0:
+                            yield dict(case, opts=dict(opts, sort_via='expr', reverse_via='expr'))
 
 
 def batch_cases(tier):
@@ -153,7 +157,9 @@ def random_case(rng):
     n = rng.choice([rng.randint(0, 26), rng.randint(0, 26), rng.randint(27, 60), rng.randint(2, 9)])
     base = {'mapping': U.PART[kind] == 'map' and rng.random() < 0.7,
             'no_push_item': rng.random() < 0.3, 'prefix': rng.choice(SEED_PREFIXES)}
-    opts = dict(base, sort=rng.choice(U.sort_modes(kind, base)), reverse=rng.random() < 0.4)
+    opts = dict(base, sort=rng.choice(U.sort_modes(kind, base)), reverse=rng.random() < 0.4,
+                sort_via=rng.choice(('attr', 'attr', 'expr')),
+                reverse_via=rng.choice(('attr', 'attr', 'expr')))
     alpha = rng.choice([(0, 1), (0, 1, 2), ('a', 'b'), ('a', 'B', 'c'), tuple(range(max(n, 1)))])
     xs = []
     while len(xs) < n:                       # runs of equal x with random lengths
@@ -239,7 +245,10 @@ def run(ctx, spec):
 def sample_of(hz, case):
     """render one case again, outside the verdict, to store inputs and observed output"""
     if case['family'] == 'nested':
-        return {'case': case, 'note': 'see replay: ./check C10 --replay on a file with this case'}
+        src, outer, glob = U.nested_source(case)
+        out = hz.template(src)(outer=U.make_container(case['container'], outer), gk=glob)
+        return {'case': case, 'source': U.show(src, 900),
+                'sequence': repr([(o, o.kids) for o in outer])[:300], 'output': U.show(out, 1200)}
     elements, _ = U.build_elements(case['kind'], case['xs'], case.get('vals'))
     src, _ = U.flat_source(case)
     ns = U.outer_namespace(case['opts']) if case.get('outer') else {}
